@@ -48,6 +48,12 @@ def truncI (x : R) : Int := let q := floatToRat x; if q < 0 then - ((-q).floor) 
 @[inline] def pymax (a b : R) : R := if b > a then b else a
 @[inline] def pymin (a b : R) : R := if b < a then b else a
 def roundI (x : R) : Int := RQ.Q.R.roundI (floatToRat x)
+/-- Python `round(x, n)` for a float (`float___round___impl`: correctly rounded, half-even on the exact binary value);
+NaN and infinities are returned unchanged, a zero result keeps the sign of `x` -/
+def roundDec (n : Nat) (x : R) : R :=
+  if x.isNaN || x.isInf then x else
+  let q : Rat := ((RQ.Q.R.roundI (floatToRat x * ((10 ^ n : Nat) : Rat)) : Int) : Rat) / ((10 ^ n : Nat) : Rat)
+  if q = 0 then (if x < 0 || x.toBits == (0x8000000000000000 : UInt64) then -0.0 else 0.0) else ratToFloat q
 /-- Python 3.12 `sum()` over floats: Neumaier compensated summation (`Python/bltinmodule.c`) -/
 def pysum (xs : List R) : R :=
   let rec go (xs : List Float) (f c : Float) : Float :=
